@@ -53,6 +53,13 @@ Theorem C13_recorded_targets_and_size_overrides_are_the_source :
 Proof. intros. apply SrcDecodeTie.decode_step_tie. Qed.
 Print Assumptions C13_recorded_targets_and_size_overrides_are_the_source.
 
+(* the offset against which the decoding loop has to_arg resolve relative jumps is the one after the whole instruction, its
+   EXTENDED_ARG prefixes included (the model's decode_instrs passes next_offset) *)
+Theorem C13_relative_jump_base_is_the_source : forall n_args offset next_offset,
+  PCD.Gen.SrcLines.DecodeStep.jump_base n_args offset next_offset = next_offset.
+Proof. exact SrcDecodeTie.jump_base_tie. Qed.
+Print Assumptions C13_relative_jump_base_is_the_source.
+
 (* and the block-building loop itself: `for offset, instruction in offsets_and_instruction` - a new block when the offset
    is a target, the jump operand rewritten to targets.index(...), append to the current block (NameError when none exists
    yet) - re-translated on every run (Gen/SrcLines.v, SplitBlocks: the finished blocks and the list `block` is bound to),
